@@ -121,6 +121,9 @@ pub(crate) struct PositionCalculator<'a> {
     pos: usize,
     line: usize,
     column: usize,
+    // Whether the last character read was a carriage return, so that the line feed of a
+    // CR LF pair is not counted as a second line terminator.
+    after_cr: bool,
 }
 
 impl<'a> PositionCalculator<'a> {
@@ -130,6 +133,7 @@ impl<'a> PositionCalculator<'a> {
             pos: 0,
             line: 1,
             column: 1,
+            after_cr: false,
         }
     }
 
@@ -141,16 +145,20 @@ impl<'a> PositionCalculator<'a> {
         for ch in chars_to_read {
             match ch {
                 '\r' => {
+                    self.line += 1;
                     self.column = 1;
                 }
                 '\n' => {
-                    self.line += 1;
+                    if !self.after_cr {
+                        self.line += 1;
+                    }
                     self.column = 1;
                 }
                 _ => {
                     self.column += 1;
                 }
             }
+            self.after_cr = ch == '\r';
         }
         self.pos = pos;
         self.input = &self.input[bytes_to_read..];
